@@ -399,16 +399,28 @@ impl TracingEventReceiver {
             .parent_id
             .and_then(|parent_id| self.local_spans.inner.get(&parent_id));
 
-        let value_set = Self::generate_fields(metadata, &data.values);
-        let value_set = Self::expand_fields(&value_set);
+        // Values accumulated by a persisted span may exceed the max supported number of values
+        // per call; the remaining values are recorded separately.
+        let all_values = Self::generate_fields(metadata, &data.values);
+        let initial_len = all_values.len().min(Self::MAX_VALUES);
+        let (initial_values, more_values) = all_values.split_at(initial_len);
+
+        let value_set = Self::expand_fields(initial_values);
         let value_set = Self::create_values(metadata.fields(), &value_set);
         let attributes = if let Some(local_parent_id) = local_parent_id {
             Attributes::child_of(local_parent_id.clone(), metadata, &value_set)
         } else {
             Attributes::new(metadata, &value_set)
         };
+        let local_id = Self::dispatch(|dispatch| dispatch.new_span(&attributes));
 
-        Ok(Self::dispatch(|dispatch| dispatch.new_span(&attributes)))
+        for values in more_values.chunks(Self::MAX_VALUES) {
+            let values = Self::expand_fields(values);
+            let values = Self::create_values(metadata.fields(), &values);
+            let values = Record::new(&values);
+            Self::dispatch(|dispatch| dispatch.record(&local_id, &values));
+        }
+        Ok(local_id)
     }
 
     /// Tries to consume an event and relays it to the tracing infrastructure.
